@@ -96,6 +96,23 @@ func c13Exec(run *ev.Run, u *uni.U, gen *wh.CPGen, la wh.LogCfg, sc c13Scenario,
 		headCP = u.Sign(uni.Body(la.Origin, uint64(sc.Head), m.Root(sc.Head)), u.K2.Signer)
 	case "wrong-origin":
 		headCP = u.Sign(uni.Body(la.Origin+"/other", uint64(sc.Head), m.Root(sc.Head)), la.Key.Signer)
+	case "tail-lf", "tail-crlf", "tail-space", "tail-nonl", "tail-nul":
+		// A correctly signed checkpoint served with a malformed tail: not a
+		// note, so it verifies under nothing - tidying it up before the check
+		// and sending the raw bytes would submit something unverified.
+		good, _ := gen.Get(la, m, sc.Head, "plain")
+		switch sc.Kind {
+		case "tail-lf":
+			headCP = append(append([]byte{}, good...), '\n')
+		case "tail-crlf":
+			headCP = append(append([]byte{}, good[:len(good)-1]...), '\r', '\n')
+		case "tail-space":
+			headCP = append(append([]byte{}, good...), ' ')
+		case "tail-nonl":
+			headCP = append([]byte{}, good[:len(good)-1]...)
+		case "tail-nul":
+			headCP = append(append([]byte{}, good...), 0)
+		}
 	default:
 		headCP, _ = gen.Get(la, headBranch, sc.Head, "plain")
 	}
@@ -464,7 +481,7 @@ func c13(tier string) int {
 	for _, real := range []bool{false, true} {
 		for _, w := range ws {
 			for _, head := range heads {
-				for _, kind := range []string{"honest", "fork", "wrong-key", "wrong-origin"} {
+				for _, kind := range []string{"honest", "fork", "wrong-key", "wrong-origin", "tail-lf", "tail-crlf", "tail-space", "tail-nonl", "tail-nul"} {
 					if kind == "fork" && head == 0 {
 						continue
 					}
@@ -521,7 +538,7 @@ func c13(tier string) int {
 			run.Vacuous("cycle outcome %q never observed", k)
 		}
 	}
-	run.Set("rule", fmt.Sprintf("for witness state in {none, 0, 2, 5} x log head in {0, 2, 3, 6} (quick) / {none, 0..5} x 0..6 (thorough, plus a third deviation for honest logs on the quick grid) x {honest, fork of the witnessed prefix, wrong key, wrong origin} x {recording stub witness, real witness behind the real witnessAdapter}: the real feeder.FeedOnce is run with every environment call answered by the explorer - FetchCheckpoint {ok, fail}, GetLatestCheckpoint {ok, transient failure of 3 kinds (plain error, per-request timeout wrapping context.DeadlineExceeded, inner context.Canceled), ok after another feeder advanced the witness}, FetchProof {ok, 3 failure kinds}, Update {ok, 3 failure kinds, witness advanced first}, back-off timer {fires at once, context ends at this wait} - for every placement of up to %d non-default answers (deviation-bounded DFS, positions discovered dynamically; the back-off timer is replaced by an overlay of backoff/timer.go so no wall-clock time passes; a horizon of %d timer starts ends the context). Oracle = reference model of one cycle (see DESIGN.md C13). distinct_nontrivial = distinct (scenario, placement) with at least one deviation", bound, bound+3))
+	run.Set("rule", fmt.Sprintf("for witness state in {none, 0, 2, 5} x log head in {0, 2, 3, 6} (quick) / {none, 0..5} x 0..6 (thorough, plus a third deviation for honest logs on the quick grid) x {honest, fork of the witnessed prefix, wrong key, wrong origin, correctly signed but served with a malformed tail (extra LF, CRLF, trailing space, missing final LF, NUL)} x {recording stub witness, real witness behind the real witnessAdapter}: the real feeder.FeedOnce is run with every environment call answered by the explorer - FetchCheckpoint {ok, fail}, GetLatestCheckpoint {ok, transient failure of 3 kinds (plain error, per-request timeout wrapping context.DeadlineExceeded, inner context.Canceled), ok after another feeder advanced the witness}, FetchProof {ok, 3 failure kinds}, Update {ok, 3 failure kinds, witness advanced first}, back-off timer {fires at once, context ends at this wait} - for every placement of up to %d non-default answers (deviation-bounded DFS, positions discovered dynamically; the back-off timer is replaced by an overlay of backoff/timer.go so no wall-clock time passes; a horizon of %d timer starts ends the context). Oracle = reference model of one cycle (see DESIGN.md C13). distinct_nontrivial = distinct (scenario, placement) with at least one deviation", bound, bound+3))
 	run.Assumption("the back-off timer overlay changes only whether/when the timer fires; retry policy, context handling and permanent-error logic are the library's and the repository's")
 	return run.Finish()
 }
